@@ -248,7 +248,7 @@ pub fn case_strategy() -> BoxedStrategy<TwoHopCase> {
             h.spec.mint_kind = k;
             h
         }),
-        (spec_strategy(false, false), mk).prop_map(|(mut s, k)| {
+        (with_adaptive(spec_strategy(false, false), 4), mk).prop_map(|(mut s, k)| {
             s.mint_kind = k;
             s
         }),
